@@ -334,6 +334,17 @@ func importsHost(cfgNs string, hosts []string, svcNs, hostname string) bool {
 	return imp
 }
 
+// excludesHost: some ~ entry of the host list (scoped to the service's namespace or to every namespace) covers the host.
+func excludesHost(cfgNs string, hosts []string, svcNs, hostname string) bool {
+	for _, h := range hosts {
+		e, ok := parseEgress(cfgNs, h)
+		if ok && e.excluded && (e.ns == "*" || e.ns == svcNs) && covers(e.pat, hostname) {
+			return true
+		}
+	}
+	return false
+}
+
 func (w *world) vsExportDoc(v *vsSpec) []string {
 	e := v.exportTo
 	if len(e) == 0 {
@@ -393,11 +404,11 @@ func (w *world) drVisibleDoc(d *drSpec, ns string) bool {
 //     as public (no "." in it) although it does not export to ns;
 //   - otherwise the plain clause.
 func (w *world) drNotExportedKind(d *drSpec, ns string, from []string) string {
+	// the legacy merge keeps the export set of the FIRST rule of `from` for the whole consolidated rule: only a
+	// later rule riding on a first rule that is exported to ns is the known class
 	if !w.enhanced && len(from) > 1 {
-		for _, k := range from {
-			if o := w.drByKey(k); o != nil && o != d && w.drVisibleDoc(o, ns) {
-				return "dr-not-exported:legacy-merge-flag-off"
-			}
+		if o := w.drByKey(from[0]); o != nil && o != d && w.drVisibleDoc(o, ns) {
+			return "dr-not-exported:legacy-merge-flag-off"
 		}
 	}
 	if len(d.exportTo) == 0 && d.selector == nil && !w.mesh.nilDR && len(w.mesh.defDR) > 0 {
@@ -868,6 +879,7 @@ func (w *world) oracleOneScope(sc *model.SidecarScope, ns string, gateway bool, 
 			}
 		}
 		hostImported := imported
+		var excludedVia *oracleListener
 		if !imported && !gateway {
 			// destination of a mesh-gateway VirtualService that is exported to ns and imported by a
 			// listener's host list - all three judged from the documented rules, not from the real
@@ -876,10 +888,19 @@ func (w *world) oracleOneScope(sc *model.SidecarScope, ns string, gateway bool, 
 				for i := range w.vss {
 					v := &w.vss[i]
 					if vsOnMeshDoc(v) && w.vsVisibleDoc(v, ns) && len(v.hosts) > 0 && vsImportedDoc(ns, l.hosts, v) && w.vsDestHostsFor(v, ns)[sp.hostname] {
+						// "a host is exposed only when it is imported by some entry and not excluded by any entry":
+						// a ~ entry of that listener covering the service keeps it out, whoever routes to it
+						if excludesHost(ns, l.hosts, sp.ns, sp.hostname) {
+							lc := l; excludedVia = &lc
+							continue
+						}
 						imported = true
 					}
 				}
 			}
+		}
+		if !imported && excludedVia != nil {
+			return "leak-excluded-host-through-virtualservice " + sp.id + " " + ns
 		}
 		if !imported {
 			return "leak-not-imported " + sp.id + " " + ns
@@ -1211,6 +1232,9 @@ func (w *world) oracleQuery(t []string) string {
 		case t[0] == "xds" && len(t) >= 3:
 			lbl, _ := decLabels(t[2])
 			if v := w.oracleXDS(wire.Dec(t[1]), lbl); v != "" {
+				return v
+			}
+			if v := w.oracleCachedXDS(lbl, append(append([]string{}, nsPool...), "other")); v != "" {
 				return v
 			}
 		case (t[0] == "eds" || t[0] == "lds" || t[0] == "rds") && (len(t) == 3 || len(t) == 4):
